@@ -561,3 +561,38 @@ package nitro
 //@ ensures[len] len(keys) == l.n
 //@ ensures[order] forall i int {keys[i]} :: 0 <= i && i < l.n ==> ptr(keys[i]) == l.seq[i].itm + 12 && len(keys[i]) == cast(*Item, l.seq[i].itm).dataLen
 //@ nopanic
+
+// ---------------------------------------------------------------------------
+// C08: snapshot reference count (thread-modular). Shared: Snapshot.refCount. Thread-local ghost: myrefs (references
+// held by this thread). g-zero is the property's title: the count never leaves zero.
+// ---------------------------------------------------------------------------
+
+//@ ghost field Snapshot.myrefs int
+//@ ghost field Snapshot.retired bool
+//@ shared heap(Snapshot.refCount), heap(Snapshot.retired)
+//@ inv ref-nonneg: forall s *Snapshot {s.refCount} :: s.refCount >= s.myrefs && s.myrefs >= 0
+//@ inv retired-zero: forall s *Snapshot {s.refCount} :: s.retired <==> s.refCount == 0
+//@ rely g-zero: forall s *Snapshot {s.refCount} :: old(s.refCount) == 0 ==> s.refCount == 0
+//@ rely g-retired: forall s *Snapshot {s.retired} :: old(s.retired) ==> s.retired
+//@ rely others-keep-mine: forall s *Snapshot {s.refCount} :: s.refCount >= s.myrefs
+//@ rely others-bounded: forall s *Snapshot {s.refCount} :: s.refCount < 2147483646
+
+//@ func (*Snapshot).Open @step
+//@ props C08
+//@ mode step
+//@ requires s != nil
+//@ assume[no-overflow] forall x *Snapshot {x.refCount} :: x.refCount < 2147483646
+//@ loop 1 invariant s.myrefs == old(s.myrefs)
+//@ atomic 2 ghost if ret then s.myrefs := s.myrefs + 1
+//@ atomic 2 assert[from-nonzero] ret ==> old(s.refCount) != 0
+//@ ensures[holds] result ==> s.myrefs == old(s.myrefs) + 1
+//@ ensures[refused] !result ==> s.myrefs == old(s.myrefs)
+
+//@ func (*Snapshot).Close @step
+//@ props C08
+//@ mode step
+//@ requires s != nil && s.myrefs >= 1
+//@ atomic 1 ghost s.myrefs := s.myrefs - 1
+//@ atomic 1 ghost if ret == 0 then s.retired := true
+//@ atomic 1 assert[retire-once] ret == 0 ==> !old(s.retired)
+//@ atomic 1 assert[nonneg] ret >= 0
